@@ -27,11 +27,13 @@ None == <<"none">>
 Bindings == {"redirect", "post", "soap", "artifact"}
 \* typ "SAMLart": the redirect encoder used for an artifact (the third message type http_redirect_message documents)
 Scn == [binding : Bindings, typ : {"SAMLRequest", "SAMLResponse", "SAMLart"}, msg : Strings, relay : Strings \cup {None},
-        locq : BOOLEAN, signed : BOOLEAN, decl : BOOLEAN]
+        locq : BOOLEAN, signed : BOOLEAN,
+        \* the message text starts with an XML declaration: as the tool writes it, or in another legal spelling
+        decl : {"none", "tool", "short", "standalone"}]
 WellFormed(s) ==
     /\ (s.signed => s.binding = "redirect")
     /\ (s.typ = "SAMLart" => s.binding = "redirect" /\ ~s.signed /\ s.msg = <<>>)
-    /\ (s.decl => s.binding = "soap")                    \* message text starts with an XML declaration line (tool output)
+    /\ (s.decl # "none" => s.binding = "soap")                    \* message text starts with an XML declaration line (tool output)
     /\ (s.binding = "soap" => s.relay = None /\ ~s.locq /\ s.typ = "SAMLRequest")
     /\ (s.binding = "artifact" => s.typ = "SAMLRequest" /\ s.msg = <<>>)     \* the artifact itself is base64
     /\ (s.binding \in {"post", "soap"} => ~s.locq)
@@ -69,7 +71,7 @@ Wire(s) ==
             <<"INPUT", "name", s.typ, "QUOT">> \o HtmlEsc(B64(s.msg)) \o <<"QUOT">>
             \o (IF s.relay # None /\ s.relay # <<>> THEN <<"INPUT", "name", "RelayState", "QUOT">> \o HtmlEsc(s.relay) \o <<"QUOT">> ELSE <<>>)
       [] OTHER ->   \* soap: the message text is spliced into the Body; a leading declaration line is removed
-            <<"ENV", "BODY">> \o (IF s.decl /\ ~FixedSoap THEN SelectSeq(s.msg, LAMBDA c : c # "nl") ELSE s.msg) \o <<"/BODY", "/ENV">>
+            <<"ENV", "BODY">> \o (IF s.decl # "none" /\ ~FixedSoap THEN SelectSeq(s.msg, LAMBDA c : c # "nl") ELSE s.msg) \o <<"/BODY", "/ENV">>
 
 \* ---- an independent reader
 RECURSIVE SplitAt(_, _, _)
